@@ -352,6 +352,7 @@ func (in *inliner) expandExpr(h *helperInfo, call *ast.CallExpr) ast.Expr {
 	in.noteHost(h)
 	c, _ := in.copyNode(h.expr)
 	body := c.(ast.Expr)
+	rebasePos(body, call.Pos())
 	ids, args := in.paramBindings(h, call)
 	objs := map[types.Object]ast.Expr{}
 	for i, id := range ids {
@@ -429,6 +430,7 @@ func (in *inliner) expandStmt(h *helperInfo, call *ast.CallExpr, targets []ast.E
 	in.noteHost(h)
 	c, _ := in.copyNode(h.decl.Body)
 	body := c.(*ast.BlockStmt)
+	rebasePos(body, call.Pos())
 	// bind parameters through fresh copies of the declaring identifiers
 	var pre []ast.Stmt
 	ids, args := in.paramBindings(h, call)
@@ -1400,4 +1402,49 @@ func negateCond(info *types.Info, e ast.Expr) ast.Expr {
 	n := &ast.UnaryExpr{Op: token.NOT, X: inner}
 	info.Types[n] = boolT
 	return n
+}
+
+// rebasePos gives every node of an expanded helper body the position of the
+// call it replaces. Rules that order statements of a function by position
+// ("is the copy used after the store?") then see the expansion where the call
+// stood instead of somewhere else in the file (or in another file); reports
+// about expanded code point at the call site.
+func rebasePos(n ast.Node, pos token.Pos) {
+	seen := map[uintptr]bool{}
+	var walk func(v reflect.Value)
+	posT := reflect.TypeOf(token.NoPos)
+	walk = func(v reflect.Value) {
+		switch v.Kind() {
+		case reflect.Interface:
+			if !v.IsNil() {
+				walk(v.Elem())
+			}
+		case reflect.Ptr:
+			if v.IsNil() || seen[v.Pointer()] {
+				return
+			}
+			seen[v.Pointer()] = true
+			switch v.Interface().(type) {
+			case *ast.Object, *ast.Scope:
+				return
+			}
+			walk(v.Elem())
+		case reflect.Slice:
+			for i := 0; i < v.Len(); i++ {
+				walk(v.Index(i))
+			}
+		case reflect.Struct:
+			for i := 0; i < v.NumField(); i++ {
+				f := v.Field(i)
+				if f.Type() == posT {
+					if f.CanSet() && f.Int() != 0 {
+						f.SetInt(int64(pos))
+					}
+					continue
+				}
+				walk(f)
+			}
+		}
+	}
+	walk(reflect.ValueOf(n))
 }
